@@ -79,9 +79,11 @@ inline const char *pos_class(int p, int size) { return size == 0 ? "empty" : p =
 // ---- temporaries built by fixed recipes (operand menu) ----------------------------------------------------------
 //  0 empty | 1 one element | 2 exactly N elements (inline exactly full) | 3 reserve(N+1) then one element (heap, size<=N)
 //  4 N+1 elements (heap, size>N) | 5 N+1 elements then clear (heap emptied) | 6 adopted heap buffer with capacity 1 (<N)
-constexpr int RECIPES = 7;
+//  7 SmallVector(vector&&) from an empty vector without buffer | 8 from an empty vector that owns a buffer
+//  9 from a vector with one element and spare capacity N+2
+constexpr int RECIPES = 10;
 inline const char *recipe_name(int r) {
-  static const char *n[] = {"empty", "one", "fullN", "heap-small", "heap-big", "heap-emptied", "adopted-small"};
+  static const char *n[] = {"empty", "one", "fullN", "heap-small", "heap-big", "heap-emptied", "adopted-small", "adopted-nothing", "adopted-empty-buffer", "adopted-spare"};
   return r >= 0 && r < RECIPES ? n[r] : "?";
 }
 /// size of the temporary, or -1 if the recipe does not exist for this instantiation
@@ -94,10 +96,13 @@ inline int recipe_size(int r) {
     case 4: return kDyn ? N + 1 : -1;
     case 5: return kDyn ? 0 : -1;
     case 6: return (kSmall && N >= 2) ? 1 : -1;
+    case 7: return kSmall ? 0 : -1;
+    case 8: return kSmall ? 0 : -1;
+    case 9: return kSmall ? 1 : -1;
   }
   return -1;
 }
-inline bool recipe_entitled(int r) { return !(r == 3 || r == 4 || r == 5 || r == 6); }
+inline bool recipe_entitled(int r) { return !(r == 3 || r == 4 || r == 5 || r == 6 || r == 8 || r == 9); }  // 7 adopts no buffer
 
 struct World {
   int K = 1;  // pool size
